@@ -70,6 +70,12 @@ def run(res):
         n_ll, d_ll, h_ll = link_common.link_tie(bdir, res.tier)
         res.cov["link_model_operations_compared"] = n_ll
         histo.append(h_ll)
+        for flag, what, rp in getattr(link_common.link_tie, "hits", []):
+            # a frame-count-bit / duplicate / repeated-request failure of the real link layer is a failing history for
+            # end-to-end exactly-once delivery as well
+            if flag in ("FCB_FAIL", "DUP_FAIL", "REPEAT_FAIL"):
+                res.violation("link-" + flag.lower(), "link layer (real link_layer.c, model-free oracle of harness/ll101.c): " + what, {"failing_ops": rp, "oracle": flag})
+                found = True
         if d_ll:
             diffs = (diffs or []) + d_ll
     except BuildError as e:
